@@ -141,8 +141,9 @@ CHECKS.update({
              "including FdGuard/MmapGuard/ShmHeader::read and their libc FFI calls - proved against a C model of open/read/mmap/munmap/close/errno for every file length 0..96, symbolic header bytes, "
              "missing file, directory, mmap failure: Ok iff header valid and declared size >= 72; NotInitialized / Malformed / SyscallError(errno) exactly as documented; descriptor closed on every path, "
              "mapping released on every error path, pointers at offsets 12/14/16, no out-of-bounds access. segment_size() == 72; write then a fresh reader's snapshot reads back exactly the published "
-             "record; ShmWriter::new re-creates an unusable file with size 72.",
-        note="Assumed: the POSIX model; contract stubs for is_usable_segment/wipe/mmap_segment_at in ShmWriter::new; wipe's bytes through std::fs + byteorder are unverified (only its contract is used).",
+             "record; ShmWriter::new re-creates an unusable file with size 72; the real usability probe agrees with what a client's open would do (C16.probe.*). BOUNDED (not counted as proved): the real wipe and the real "
+             "new + write + fresh open + snapshot executed natively on the real file system for every pre-existing file length 0..=200 x 4 fill patterns and a missing file.",
+        note="Assumed: the POSIX model; contract stubs for wipe/mmap_segment_at in the ShmWriter::new harness; wipe's bytes through std::fs + byteorder are covered only by the bounded native stand-in (a Kani proof on a full file model did not finish).",
         technique="Kani full-domain harnesses on the real open path with a C POSIX model linked via c-ffi",
         design_ref="DESIGN.md section 4, C16"),
     "C17": dict(
@@ -150,18 +151,21 @@ CHECKS.update({
         text="One table (spec/layout.json, transcribed from docs/PROTOCOL.md and clockbound.h) is checked on both sides: Kani proves size/alignment/field offsets/widths of ShmHeader, ClockErrorBound "
              "(72 bytes total, status word 0/1/2 at offset 48, fields re-read from the stored bytes with native endianness), and of the FFI's repr(C) mirror types and enum discriminants; CBMC proves the "
              "same numbers for the real clockbound.h (sizeof/offsetof/enumerators, sys_errno is an int at 4). The conversion layers of both clients are proved total and kind/errno preserving "
-             "(From<ClockStatus>, From<ShmError> for clockbound_err and for ClockBoundError).",
-        note="Target x86_64-unknown-linux-gnu; the table is transcribed by hand; 'same interval at the same moment' across two calls is not a contract (both clients share snapshot + now); thin wrappers are unverified glue.",
+             "(From<ClockStatus>, From<ShmError> for clockbound_err and for ClockBoundError). Both clients' open and now wrappers are proved to be thin layers over the same three callees: open opens once and reads "
+             "nothing (empty cache), now takes exactly one snapshot and evaluates exactly it, interval/status/error kind/errno passed through unchanged; ClockErrorBound::new stores its arguments verbatim.",
+        note="Target x86_64-unknown-linux-gnu; the table is transcribed by hand; 'same interval at the same moment' across two separate calls is not one contract - the wrappers' equivalence is what is proved (callees replaced by recorders).",
         technique="Kani layout/conversion obligations on the repr(C) types + CBMC on the real C header, both generated from one table",
         design_ref="DESIGN.md section 4, C17"),
     "C18": dict(
-        category="proof", engine="kani-woven",
-        text="Proved (complete): with an update in flight (odd generation), a re-initialising segment (version 0 / generation 0) or an unchanged generation, snapshot returns its cached record after two "
-             "loads and zero record reads; with a quiescent fresh generation it performs exactly one record read. BOUNDED (not counted as proved): against an adversarial segment that changes arbitrarily "
-             "before every shared access, a call with retry budget N=3 performs <= N record reads and <= 2+2N shared accesses and ends with the cache, an accepted even-generation record, or "
-             "SegmentNotInitialized only after the full budget; the loop body is budget-independent so the bound scales to the real 1 000 000.",
-        note="Kani does not prove termination; loop contracts do not go through in Kani 0.68 here; the adversarial clause is a bounded stand-in with the stated bound.",
-        technique="Kani full-domain harness (early returns) + bounded adversarial-environment harness with woven havoc steps",
+        category="proof", engine="verus-extracted",
+        text="Unbounded (Verus): the verbatim body of ShmReader::snapshot is verified against an ADVERSARIAL segment - every atomic load and the volatile record copy are external functions without "
+             "postcondition, so a dead, stalled or continuously updating writer is a special case - to terminate (strictly decreasing measure `retries` from the budget 1 000 000; each iteration is "
+             "straight-line: one record copy, one load), never to panic or overflow, and to fail only with SegmentNotInitialized. Complete (Kani, real woven code): with an odd generation, version 0, "
+             "generation 0 or an unchanged generation the call returns its cache after two loads and zero record reads; with a quiescent fresh generation exactly one record read. Bounded (not counted): "
+             "access counts <= 2+2N / N record reads with the retry budget overridden to N=3.",
+        note="Verus/Z3 and Kani/CBMC sound; three logged rewrites of unsafe accesses + the spliced loop contract in the extracted body; stand-in types for the segment; Verus's termination check is for the "
+             "extracted function (the callee stand-ins are assumed to return).",
+        technique="Verus termination/decreases proof on the verbatim snapshot body with an adversarial memory model + Kani full-domain harness for the early returns",
         design_ref="DESIGN.md section 4, C18"),
     "C19": dict(
         category="proof", engine="kani-woven",
